@@ -343,6 +343,8 @@ def _roles(rec):
         t = fl.get('t') or ''
         role = ('continuation' if t.startswith('std::function') else 'context' if t.startswith('QPointer') else 'finished' if t == 'bool'
                 else 'freeResult' if '(*)' in t else 'result' if t.replace(' ', '') == 'void*' else None)
+        if role is None and (t.startswith('QMetaObject::Connection') or 'QTimer' in t or t.startswith('QList<QMetaObject::Connection')):
+            continue        # bookkeeping for a signal connection: not one of the five protocol members; what a connected handler may write is R7's subject
         if role is None or role in roles:
             raise AnalysisBroken('C13: the shared record has a member the checker cannot classify: %s %s' % (t, fl['name']))
         roles[role] = fl.get('qname') or ('QXmpp::Private::TaskData::' + fl['name'])
